@@ -219,6 +219,16 @@ func (tw *TumblingWindow) Add(data any) {
 		}
 	}
 
+	// An on-time event may precede the window anchored by the first event (it is
+	// within MaxOutOfOrderness of the newest one). Windows only ever advance, so
+	// move the anchor back to that event's window; otherwise it is never emitted.
+	// Such a window cannot have fired or been skipped: its end lies above the
+	// event's timestamp, which is not below the watermark.
+	if timeChar == types.EventTime && tw.currentSlot != nil && eventTime.Before(*tw.currentSlot.Start) &&
+		(tw.watermark == nil || !tw.watermark.IsEventTimeLate(eventTime)) {
+		tw.currentSlot = tw.createSlotFromStart(alignWindowStart(eventTime, tw.size))
+	}
+
 	row := types.Row{
 		Data:      data,
 		Timestamp: eventTime,
